@@ -56,3 +56,41 @@ pub proof fn lemma_oldest_compose(o: Map<u32, Partition>, f: Map<u32, Partition>
         }
     }
 }
+
+// ---- LINK harnesses: the contracts other units ASSUME for `Topic::get_partition` (extracted and proved here), proved from the real one ----
+// Harness = the stub's signature, the comparable `ensures` clauses copied VERBATIM from the assuming unit's prelude.rs, body = ONE call of
+// the real extracted function. Mirror any edit of a stub here. (The real function rests on the R4/R5/R6 stand-in `LockMap::get` of
+// vx/prelude/topic_send.rs — the lock map — which stays an assumption; what is linked is that the extracted text adds nothing to it.)
+impl Topic {
+    // copied from units/retention/prelude.rs, stub `Topic::get_partition`: its second clause (the map). Its first clause is the frame of
+    // stream_id / topic_id / message_expiry / config / compression_algorithm; this unit's Topic does not keep message_expiry and
+    // compression_algorithm, so that clause cannot be written here — it is an instance of the real frame
+    // `*final(self) == Topic { partitions: .., ..*old(self) }` proved here over every kept field.
+    // label: C15.link.retention.get_partition
+    pub fn link_retention_get_partition(&mut self, partition_id: u32) -> (r: Result<&mut Partition, IggyError>)
+        ensures
+            match r {
+                Ok(p) => old(self).partitions@.contains_key(partition_id) && *p == old(self).partitions@[partition_id]
+                    && final(self).partitions@ == old(self).partitions@.insert(partition_id, *final(p)),
+                Err(_) => !old(self).partitions@.contains_key(partition_id) && final(self).partitions@ == old(self).partitions@,
+            },
+    {
+        self.get_partition(partition_id)
+    }
+
+    // copied from units/consumer_offsets/prelude.rs, stub `Topic::get_partition`: its first clause (ids) and its last (the map). The two
+    // clauses in between frame consumer_groups / consumer_groups_ids / storage / current_consumer_group_id, fields this unit's Topic
+    // does not keep (instances of the real frame, as above).
+    // label: C15.link.consumer_offsets.get_partition
+    pub fn link_consumer_offsets_get_partition(&mut self, partition_id: u32) -> (r: Result<&mut Partition, IggyError>)
+        ensures
+            final(self).stream_id == old(self).stream_id && final(self).topic_id == old(self).topic_id,
+            match r {
+                Ok(p) => old(self).partitions@.contains_key(partition_id) && *p == old(self).partitions@[partition_id]
+                    && final(self).partitions@ == old(self).partitions@.insert(partition_id, *final(p)),
+                Err(_) => !old(self).partitions@.contains_key(partition_id) && final(self).partitions@ == old(self).partitions@,
+            },
+    {
+        self.get_partition(partition_id)
+    }
+}
